@@ -1245,6 +1245,7 @@ where
     /// Send all stored packets for retransmission
     fn send_stored(&mut self) -> Vec<GenericEvent<PacketIdType>> {
         let mut events = Vec::new();
+        let mut resent: u16 = 0;
         self.store.for_each(|packet| {
             if packet.size() > self.maximum_packet_size_send as usize {
                 let packet_id = packet.packet_id();
@@ -1256,8 +1257,13 @@ where
                 packet: packet.clone().into(),
                 release_packet_id_if_send_error: None,
             });
+            resent = resent.saturating_add(1);
             true // Keep in store
         });
+        // Every re-sent exchange occupies one slot of the peer's Receive Maximum
+        if self.publish_send_max.is_some() {
+            self.publish_send_count = self.publish_send_count.saturating_add(resent);
+        }
 
         events
     }
@@ -1716,7 +1722,7 @@ where
         // Check receive_maximum for sending (QoS 1 and 2 packets)
         if packet.qos() == Qos::AtLeastOnce || packet.qos() == Qos::ExactlyOnce {
             if let Some(max) = self.publish_send_max {
-                if self.publish_send_count == max {
+                if self.publish_send_count >= max {
                     events.push(GenericEvent::NotifyError(MqttError::ReceiveMaximumExceeded));
                     if let Some(packet_id) = packet_id_opt {
                         if self.pid_man.is_used_id(packet_id) {
@@ -3049,7 +3055,7 @@ where
                         events.push(GenericEvent::NotifyPacketIdReleased(packet_id));
                     }
                     if self.publish_send_max.is_some() {
-                        self.publish_send_count -= 1;
+                        self.publish_send_count = self.publish_send_count.saturating_sub(1);
                     }
                     events.extend(self.refresh_pingreq_recv());
                     events.push(GenericEvent::NotifyPacketReceived(packet.into()));
@@ -3123,7 +3129,7 @@ where
                             events.push(GenericEvent::NotifyPacketIdReleased(packet_id));
                         }
                         if self.publish_send_max.is_some() {
-                            self.publish_send_count -= 1;
+                            self.publish_send_count = self.publish_send_count.saturating_sub(1);
                         }
                     }
                     events.extend(self.refresh_pingreq_recv());
@@ -3253,7 +3259,7 @@ where
                         events.push(GenericEvent::NotifyPacketIdReleased(packet_id));
                     }
                     if self.publish_send_max.is_some() {
-                        self.publish_send_count -= 1;
+                        self.publish_send_count = self.publish_send_count.saturating_sub(1);
                     }
                     events.extend(self.refresh_pingreq_recv());
                     events.push(GenericEvent::NotifyPacketReceived(packet.into()));
